@@ -633,7 +633,7 @@ func (srv *server) addMsgToQueueLocked(now time.Time, clientID string, msg *gmqt
 	}
 	var expiry time.Time
 	if mqttCfg.MessageExpiry != 0 {
-		if msg.MessageExpiry != 0 && int(msg.MessageExpiry) <= int(mqttCfg.MessageExpiry) {
+		if msg.MessageExpiry != 0 && time.Duration(msg.MessageExpiry)*time.Second <= mqttCfg.MessageExpiry {
 			expiry = now.Add(time.Duration(msg.MessageExpiry) * time.Second)
 		} else {
 			expiry = now.Add(mqttCfg.MessageExpiry)
